@@ -123,7 +123,7 @@ func loadProgram(repo string, patterns []string, overlay map[string][]byte) (*Sh
 	}
 	prog, spkgs := ssautil.AllPackages(pkgs, ssa.InstantiateGenerics)
 	prog.Build()
-	sh := &Shared{prog: prog, pkgs: pkgs, spkgs: map[string]*ssa.Package{}, initPkgs: map[string]bool{}, zeroOK: map[string]bool{"errors": true, "os": true, "time": true, "log/slog": true, "syscall": true, "net": true, "reflect": true, "runtime": true, "sync": true, "unicode": true},
+	sh := &Shared{prog: prog, pkgs: pkgs, spkgs: map[string]*ssa.Package{}, initPkgs: map[string]bool{}, zeroOK: map[string]bool{"github.com/dgraph-io/badger/v4": true, "github.com/cockroachdb/pebble": true, "github.com/go-redis/redis/v8": true, "go.etcd.io/bbolt": true, "errors": true, "os": true, "time": true, "log/slog": true, "syscall": true, "net": true, "reflect": true, "runtime": true, "sync": true, "unicode": true},
 		maxSteps: maxSteps, maxAlloc: 4096, permLimit: 3, params: map[string]int{}, known: map[string]bool{}, assumptions: map[string]bool{}, smtLogged: map[string]int{}, overlay: overlay}
 	for i, p := range spkgs {
 		if p != nil {
